@@ -79,6 +79,9 @@ func AppendDecimal(b []byte, f float64, dec int) []byte {
 	if dec < 0 || 17 < dec {
 		dec = 17
 	}
+	for 0 < dec && 9.2e18 <= math.Abs(f)*math.Pow10(dec) {
+		dec-- // keep the scaled number within int64, those decimals are beyond float64 precision anyway
+	}
 	f *= math.Pow10(dec)
 
 	// correct rounding
